@@ -42,7 +42,7 @@ def AOp.rename (f : Nat → Nat) : AOp → AOp
 
 def Frag.rename (f : Nat → Nat) (fr : Frag) : Frag :=
   { ops := fr.ops.map (AOp.rename f), panic := fr.panic, cleanup := fr.cleanup.map (AOp.rename f),
-    res := f fr.res, res2 := fr.res2.map f }
+    res := f fr.res, res2 := fr.res2.map f, res3 := fr.res3.map f }
 
 /-- number of `W`-bit words of `v` (0 for 0) -/
 def wordLen (W v : Nat) : Nat := if v = 0 ∨ W = 0 then 0 else Nat.log2 v / W + 1
@@ -321,7 +321,7 @@ def fragPow (sqrSimple : Nat) (a : List Nat) (exp : Nat) : Frag :=
     let vt := va / 2 ^ shift
     let lt := wordLen W vt
     let (pops, rp, nalloc) := fReprPow W sqrSimple 2 lt vt exp
-    let vp := vt ^ exp
+    let vp := if vt ≤ 1 then vt else vt ^ exp          -- (no `1 ^ usize::MAX` in the runtime)
     let lp := wordLen W vp
     if exp * shift ≥ 2 ^ W then
       { ops := sh.ops ++ pops, panic := some .allocTooMuch, cleanup := [.drop rp, .drop 2], res := rp }
@@ -332,7 +332,8 @@ def fragPow (sqrSimple : Nat) (a : List Nat) (exp : Nat) : Frag :=
         else
           let fr := fShlLargeVal W rp 3 (capAfterFromBuffer mx (defaultCapacity mx nalloc) lp) lp vp (exp * shift)
           { fr with ops := [.intoTyped rp] ++ fr.ops }
-      { ops := sh.ops ++ pops ++ shl.ops ++ shl.cleanup ++ [.drop 2], res := shl.res }
+      -- (a `shl` beyond MAX_CAPACITY panics: the moved power and the temporary are dropped by unwinding)
+      { ops := sh.ops ++ pops ++ shl.ops, panic := shl.panic, cleanup := shl.cleanup ++ [.drop 2], res := shl.res }
 
 end
 end Dashu.Model.Mem
